@@ -211,6 +211,8 @@ class SteadyDetonationReactionZone(ExactSolver):
 
         xsolution['position'] = xvec
 
-        return ExactSolution(xsolution.values(),
-                             names=list(xsolution.keys()))
+        names = ['position'] + varnames
+
+        return ExactSolution([xsolution[name] for name in names],
+                             names=names)
 
